@@ -79,6 +79,10 @@ func Catalogue() map[string]Script {
 		// duplicate replies while the owner has not taken the first one must not stall the reader
 		mk("c02:duplicate-replies-do-not-stall-the-reader", 4, 0, res(0, 1), res(1, 2), start(0), start(1), whold(0), wok(1),
 			reply(0, 100), reply(0, 1000), reply(0, 1001), reply(1, 101))
+		// datagram framing: a query that is re-sent after a second keeps its wire id (caller ids collide with the
+		// other call's wire id here, so a re-send under the caller's id would be answered into the other call)
+		mk("c01:udp-resend-keeps-wire-id", 4, 0, res(0, 1), res(1, 0), start(0), start(1), wok(0), wok(1), Action{K: ASleep},
+			reply(1, 101), reply(0, 100))
 		mk("c01:wrap", 4, 65535, res(0, 9), res(1, 9), res(2, 9), start(0), start(1), start(2), wok(0), wok(1), wok(2),
 			reply(1, 101), reply(2, 102), reply(0, 100))
 		mk("c01:skip-taken-ids", 8, 0, res(0, 1), res(1, 2), start(0), start(1), wok(0), wok(1), setq(0),
